@@ -71,7 +71,29 @@ def ob2_ob3_trace(ck, sim):
         E = sim.engine(); io_cut_stubs(E, lambda k: inb)
         # contract for formatting code: reads its arguments, writes only its own objects -> no effect on simulator state
         def fmt(E_, st, a_): return a_[0] if a_ else None
-        E.prefix_stubs = [('_ZN5boost', fmt), ('_ZNK5boost', fmt), ('_ZN5boostls', fmt), ('_ZNSolsE', fmt), ('_ZStls', fmt), ('_ZNSt7__cxx1112basic_string', fmt), ('_ZNKSt7__cxx1112basic_string', fmt)]
+        # ... except that boost::format checks at run time that the arguments fed match the directives of its format string
+        # and throws too_few_args / too_many_args otherwise: that exception would leave run(), so the count is modelled
+        import re as _re
+        BF = '_ZN5boost12basic_formatIcSt11char_traitsIcESaIcEE'
+        def bf_table(st):
+            t = dict(st.x.get('bf', {})); st.x['bf'] = t; return t
+        def bf_ctor(E_, st, a_):
+            f_ = bytes(E_.read_cstr(st, a_[1])); n = len(_re.findall(rb'%(?!%)[-#0 +]*\d*(?:\.\d+)?[a-zA-Z|]', f_.replace(b'%%', b'')))
+            bf_table(st)[(a_[0].obj, a_[0].off)] = (n, 0, f_); return None
+        def bf_feed(E_, st, a_):
+            k = (a_[0].obj, a_[0].off); n, fed, f_ = bf_table(st).get(k, (None, 0, b''))
+            if n is not None:
+                if fed + 1 > n: raise Violation('format-arity', f"boost::format({f_!r}) is fed more arguments than it has directives (throws too_many_args)")
+                bf_table(st)[k] = (n, fed + 1, f_)
+            return a_[0]
+        def bf_out(E_, st, a_):
+            q = a_[1] if len(a_) > 1 and isinstance(a_[1], Ptr) else None
+            ent = st.x.get('bf', {}).get((q.obj, q.off)) if q is not None else None
+            if ent is not None and ent[0] is not None and ent[1] < ent[0]:
+                raise Violation('format-arity', f"boost::format({ent[2]!r}) is written with {ent[1]} of its {ent[0]} arguments (throws too_few_args out of run())")
+            return a_[0] if a_ else None
+        E.prefix_stubs = [(BF + 'C2EPKc', bf_ctor), (BF + 'C1EPKc', bf_ctor), (BF + 'rm', bf_feed), ('_ZN5boostls', bf_out),
+                          ('_ZN5boost', fmt), ('_ZNK5boost', fmt), ('_ZN5boostls', fmt), ('_ZNSolsE', fmt), ('_ZStls', fmt), ('_ZNSt7__cxx1112basic_string', fmt), ('_ZNKSt7__cxx1112basic_string', fmt)]
         st = State()
         st, p = sim.constructed_proc(E, st, mem)        # members this harness does not know hold what the constructor gives them
         st.pc = list(st.pc) + list(assume)
